@@ -54,6 +54,10 @@ type Case struct {
 	Rich    bool     `json:"rich,omitempty"`    // stream object implements more than the interface it is dispatched on
 	Chunk   int      `json:"chunk,omitempty"`   // stream delivers at most Chunk bytes per call (0: no limit)
 	EOFData bool     `json:"eofdata,omitempty"` // stream returns its last bytes together with io.EOF
+	// NamedRecord gives the record table as a slice of a named record type ([]record with type record []string).
+	// The generators never set it (the statement's record table is [][]string); it exists so that a probe of that
+	// neighbouring type can be replayed.
+	NamedRecord bool `json:"named_record,omitempty"`
 }
 
 // Kinds ---------------------------------------------------------------------------------------------
@@ -76,6 +80,7 @@ const (
 func recordLevel(kind int) bool { return kind == kRecords || kind == kTable }
 
 type table [][]string
+type record []string
 type blob []byte
 type text string
 
@@ -374,8 +379,12 @@ func (c Case) describe(dir string, kind int) string {
 	if dir == "produce" {
 		names = SrcKinds
 	}
+	name := names[kind]
+	if c.NamedRecord && kind == kTable {
+		name = strings.Replace(name, "[][]string", "[]record", 1)
+	}
 	return fmt.Sprintf("%s %s text=%q opts=%+v pre=%d slack=%d named=%v ptr=%v rich=%v chunk=%d eofdata=%v",
-		dir, names[kind], string(c.Text), c.Opts, c.Pre, c.Slack, c.Named, c.Ptr, c.Rich, c.Chunk, c.EOFData)
+		dir, name, string(c.Text), c.Opts, c.Pre, c.Slack, c.Named, c.Ptr, c.Rich, c.Chunk, c.EOFData)
 }
 
 // Check ---------------------------------------------------------------------------------------------
@@ -520,7 +529,19 @@ func checkConsume(c Case, kind int) *kit.Violation {
 				old[i] = []string{"old", strconv.Itoa(i)}
 			}
 		}
-		if c.Named {
+		if c.NamedRecord {
+			tblR := make([]record, len(old))
+			for i := range old {
+				tblR[i] = record(old[i])
+			}
+			dest, recs = &tblR, func() [][]string {
+				out := make([][]string, len(tblR))
+				for i := range tblR {
+					out[i] = []string(tblR[i])
+				}
+				return out
+			}
+		} else if c.Named {
 			tblN = table(old)
 			dest, recs = &tblN, func() [][]string { return [][]string(tblN) }
 		} else {
@@ -635,6 +656,12 @@ func checkProduce(c Case, kind int) ([]byte, *kit.Violation) {
 		eff = model{recs: m.recs}
 		t := deepCopy(m.recs)
 		switch {
+		case c.NamedRecord:
+			tr := make([]record, len(t))
+			for i := range t {
+				tr[i] = record(t[i])
+			}
+			data = tr
 		case c.Named && c.Ptr:
 			nt := table(t)
 			data = &nt
